@@ -24,11 +24,11 @@ LEVEL = 'exploration'
 FRESH_PROCESS_PER_JOB = True
 RULE = ('one case = (function, element type, data set [pair], optional arguments, mask script); data sets = ALL tuples (every '
         'order, duplicates included) over {-2..2} for SecInt(12) and over {-1,-1/2,0,1/2,1} for SecFxp(12,6) of size 1..4 (5 for '
-        'mean, median*, mode; plus for the order statistics the fine alphabet {0, u, 2u, 1/4, 1/2} (u = 2^-6) of size <= 3 (thorough 4); quick tier: three-point alphabet at size 5 except for mean); quantiles n in {1..5} x {exclusive, inclusive}; variance/stdev with xbar in {None, secure mean}, '
+        'mean, median*, mode; plus for the order statistics (quick: the medians) the fine alphabet {0, u, 2u, 1/4, 1/2} (u = 2^-6) of size <= 3 (thorough 4); quick tier: three-point alphabet at size 5 except for mean); quantiles n in {1..5} x {exclusive, inclusive}; variance/stdev with xbar in {None, secure mean}, '
         'pvariance/pstdev with mu in {None, secure mean, every alphabet value} (quick: pstdev at size 4 without the alphabet values); covariance: all pairs of integer data sets of size '
         '2..3; covariance/correlation/linear_regression: all pairs over {-1,0,1/2,1} (quick: {-1,0,1/2}) of size 2..3, constant x '
         '(and y for correlation) excluded; list / tuple / iterator inputs on the size<=2 data sets; mask scripts seeded, all-zero, '
-        'all-max, second seed for every case that draws randomness (quick: seeded and all-max at sizes 4, 5); for the quickselect users all 2^K outcomes of the first K pivot/tie-break bits '
+        'all-max, second seed for every case that draws randomness (quick: no second seed, and only seeded and all-max at sizes 4, 5); for the quickselect users all 2^K outcomes of the first K pivot/tie-break bits '
         '(median family: K = 5/4 at sizes 2/3 quick, 8/7/5 at sizes 2/3/4 thorough; quantiles: K = 3/2 quick, 5/4/2 thorough); non-trivial = at least one random draw or more than one party')
 ASSUMPTIONS = [
     'integers: mean, variance, pvariance are "rounded to the nearest integer" (module docstring): |result - exact| <= 1/2 is demanded, '
@@ -650,7 +650,7 @@ def groups(tier):
                 top = 3 if (fn in ORDER_FNS or fn == 'mode') else 4
             for size in range(1, top + 1):
                 gs.append(('single', fn, t, size))
-    for fn in ORDER_FNS:
+    for fn in (ORDER_FNS[:3] if tier == 'quick' else ORDER_FNS):
         for size in ((1, 2, 3) if tier == 'quick' else (1, 2, 3, 4)):
             gs.append(('single', fn, 'fxpf', size))
     for size in (2, 3):
@@ -695,7 +695,7 @@ def run_sp(job):
                 continue
             if draws == 0 or not uses_random(case):
                 continue
-            for mode in (('zero', 'max', 'seeded2') if (job['tier'] == 'thorough' or len(case['data']) <= 3) else ('max',)):
+            for mode in (('zero', 'max', 'seeded2') if job['tier'] == 'thorough' else ('zero', 'max') if len(case['data']) <= 3 else ('max',)):
                 g2, d2, _, c2 = eval_sp(mpc, seam, win, case, mode, job['seed'], None)
                 check_case(part, cfg + '/' + mode, case, g2, d2, c2, dict(detail, mode=mode), base=got)
             K = job['K'].get(('q' if case['fn'] == 'quantiles' else 'm') + str(len(case['data'])), 0) if case['fn'] in ORDER_FNS else 0
